@@ -871,6 +871,7 @@ func (kcp *KCP) flush(flushType FlushType) (nextUpdate uint32) {
 		kcp.snd_nxt++
 		newSegsCount++
 	}
+	verifEv("kcp.admit", kcp, int64(newSegsCount), 0, 0)
 
 	// calculate resent
 	resent := uint32(kcp.fastresend)
@@ -992,6 +993,7 @@ func (kcp *KCP) flush(flushType FlushType) (nextUpdate uint32) {
 		}
 	}
 
+	verifEv("kcp.flushed", kcp, int64(lostSegs), int64(change), int64(newSegsCount))
 	return nextUpdate
 }
 
